@@ -31,6 +31,7 @@ type VerifC04Part struct {
 	Msgs      []*ProducerMessage // partitionSet.msgs, in order
 	Decoded   Records            // what decodeRequest returned for this partition
 	HasDecoded bool
+	Retries   []int // VerifC04Steer only: retries of Msgs
 }
 
 type VerifC04Result struct {
@@ -238,6 +239,29 @@ type VerifC04Hook struct {
 	Retries   int
 	Partition int32
 	Set       []VerifC04Part
+	HWM       int // VerifC04Steer only
+	// bp.recv / bp.add / bp.waitForSpace: identity of the broker worker; bp.recv: its refusal state for the message
+	BP       interface{}
+	Closing  bool // bp.closing != nil
+	Retrying bool // bp.currentRetries[topic][partition] != nil
+	AddErr   bool // return.error: the error is one of produceSet.add (sequence assertion, encoder error)
+}
+
+func verifC04Decorate(hk *VerifC04Hook, kind string, args []interface{}) {
+	for _, a := range args {
+		switch v := a.(type) {
+		case *brokerProducer:
+			hk.BP = v
+			if kind == "bp.recv" && hk.Msg != nil {
+				hk.Closing = v.closing != nil
+				hk.Retrying = v.currentRetries[hk.Msg.Topic][hk.Msg.Partition] != nil
+			}
+		case error:
+			if kind == "return.error" && v != nil {
+				hk.AddErr = strings.Contains(v.Error(), "out of sequence") || strings.Contains(v.Error(), "verif-encode")
+			}
+		}
+	}
 }
 
 var verifC04Mu sync.Mutex
@@ -250,13 +274,15 @@ func VerifC04Observe(f func(VerifC04Hook)) {
 	}
 	VerifSetObserver(func(kind string, args ...interface{}) {
 		switch kind {
-		case "bp.add", "tp.forward":
+		case "bp.add", "tp.forward", "bp.recv", "bp.waitForSpace", "retry.enqueue", "return.error":
 			m, ok := args[0].(*ProducerMessage)
 			if !ok || m == nil {
 				return
 			}
+			hk := VerifC04Hook{Kind: kind, Msg: m, Flags: int(m.flags), Retries: m.retries, Partition: m.Partition}
+			verifC04Decorate(&hk, kind, args)
 			verifC04Mu.Lock()
-			f(VerifC04Hook{Kind: kind, Msg: m, Flags: int(m.flags), Retries: m.retries, Partition: m.Partition})
+			f(hk)
 			verifC04Mu.Unlock()
 		case "bridge.send":
 			set, ok := args[1].(*produceSet)
@@ -308,5 +334,38 @@ func VerifC04Trace(f func(line string)) {
 		verifC04Mu.Lock()
 		f(line)
 		verifC04Mu.Unlock()
+	})
+}
+
+// VerifC04Steer installs an observer that is NOT serialised and may block the goroutine that reached the hook
+// point (steering).  Every hook point is forwarded: Msg is the first *ProducerMessage argument (if any), Set the
+// first *produceSet argument with the retry count of its messages, HWM the int argument of pp.newHWM.
+func VerifC04Steer(f func(VerifC04Hook)) {
+	VerifSetObserver(func(kind string, args ...interface{}) {
+		hk := VerifC04Hook{Kind: kind, HWM: -1}
+		for _, a := range args {
+			switch v := a.(type) {
+			case *ProducerMessage:
+				if v != nil && hk.Msg == nil {
+					hk.Msg, hk.Flags, hk.Retries, hk.Partition = v, int(v.flags), v.retries, v.Partition
+				}
+			case *produceSet:
+				if v != nil && hk.Set == nil {
+					for topic, parts := range v.msgs {
+						for partition, ps := range parts {
+							p := VerifC04Part{Topic: topic, Partition: partition, Msgs: append([]*ProducerMessage(nil), ps.msgs...)}
+							for _, m := range ps.msgs {
+								p.Retries = append(p.Retries, m.retries)
+							}
+							hk.Set = append(hk.Set, p)
+						}
+					}
+				}
+			case int:
+				hk.HWM = v
+			}
+		}
+		verifC04Decorate(&hk, kind, args)
+		f(hk)
 	})
 }
